@@ -581,8 +581,22 @@ def tail_byte_family():
     return out
 
 
-def valid_frames(ctx, n, boundaries=False):
+def foreign_frames(ctx, n):
+    """grammar-valid frames as a foreign peer may send them (forms this library never emits: unused bits
+    set, further flag words, any class id / weight, all 19 type tags, names validation would refuse)"""
+    g = ctx.gen
+    keys = list(refenc.METHODS)
+    out = []
+    for i in range(n):
+        data, exp = grammar.header_frame(g) if i % 3 == 2 else grammar.method_frame(g, keys[g.r.randrange(len(keys))])
+        out.append((None, exp[0], data))
+    return out
+
+
+def valid_frames(ctx, n, boundaries=False, foreign=0):
     out = boundary_bodies(ctx) if boundaries else []
+    if foreign:
+        out += foreign_frames(ctx, foreign)
     for f_, ch_ in tail_byte_family():
         out.append((f_, ch_, frame.marshal(f_, ch_)))
     for ch_ in (0, 65535):       # the empty body frame is a frame too (D12)
@@ -647,7 +661,7 @@ def c06_stream_case(datas, tail):
 def oracle_c06(ctx):
     res = Result('c06.stream')
     g = ctx.gen
-    frames = valid_frames(ctx, 1500 if ctx.thorough else 300)
+    frames = valid_frames(ctx, 1500 if ctx.thorough else 300, foreign=600 if ctx.thorough else 150)
     for f_, ch_, b_ in boundary_bodies(ctx):
         res.case('boundary body %d' % len(b_), tag='boundary')
         kk, bad = catching(c06_stream_case, [b_, b_[:8] if False else b'\x08\x00\x00\x00\x00\x00\x00\xce'], b'')
@@ -1376,6 +1390,18 @@ def c12_history_case(v, seed):
             pass
     for i in range(2600):
         catching(encode.encode_table_value, rnd.choice([i * 7919 + 13, i / 7.0, D(i) / D(8), 's%d' % i]))
+    # ... and other use of the library in between: a peer's handshake of any vintage is decoded, frames are built
+    for ver in rnd.sample(lanes.VERSIONS, 10) + ['3.5.7', '2.6.1', '3.0.0', '1.7.2']:
+        for prod in ('RabbitMQ', rnd.choice(lanes.PRODUCTS)):
+            peer = {'product': prod, 'version': ver, 'platform': 'Erlang/OTP 26', 'capabilities': {'basic.nack': True}}
+            for f in (commands.Connection.Start(0, 9, peer, 'PLAIN', 'en_US'), commands.Connection.StartOk(peer, 'PLAIN', '', 'en_US')):
+                kf, data = catching(frame.marshal, f, 0)
+                if kf == 'ok':
+                    catching(frame.unmarshal, data)
+                    k2, b2 = catching(encode.encode_table_value, v)
+                    if k1 != k2 or (k1 == 'ok' and b1 != b2):
+                        return ('%s (before a %s from %r %r was decoded)' % (b1.hex()[:300] if k1 == 'ok' else k1, f.name, prod, ver),
+                                b2.hex()[:300] if k2 == 'ok' else k2)
     k2, b2 = catching(encode.encode_table_value, v)
     if k1 != k2 or (k1 == 'ok' and b1 != b2):
         return (b1.hex()[:300] if k1 == 'ok' else k1, b2.hex()[:300] if k2 == 'ok' else k2)
@@ -2014,9 +2040,87 @@ def mutable_members(obj, acc):
         mutable_members(obj.properties, acc)
 
 
+def c16_probe():
+    """a fixed set of calls whose results any lasting trace of an earlier call would change"""
+    out = [real.outcome(encode.encode_table_value, mk(), show=real.show_bytes) for mk in lanes.RECURRING]
+    out.append(real.outcome(encode.table_integer, 40000, show=real.show_bytes))
+    out.append(real.outcome(encode.table_integer, 3000000000, show=real.show_bytes))
+    out.append(real.outcome(frame.marshal, commands.Queue.Declare(0, 'q', arguments={'x-message-ttl': 60000, 'x-max-length': 3000000000}), 1, show=real.show_bytes))
+    out.append(real.outcome(frame.marshal, header.ContentHeader(0, 5, commands.Basic.Properties(headers={'n': 40000}, delivery_mode=2)), 1, show=real.show_bytes))
+    out.append(real.outcome(frame.unmarshal, b'\x01\x00\x01\x00\x00\x00\x0d\x00\x3c\x00\x50\x00\x00\x00\x00\x00\x00\x00\x01\x00\xce', show=real.show_frame))
+    out.append(real.outcome(lambda: [sorted(c.__slots__) == sorted(dict(c()).keys()) for c in (commands.Basic.Publish, commands.Connection.Start)], show=repr))
+    out.append(real.outcome(lambda: [getattr(commands.Connection.StartOk(), a) for a in commands.Connection.StartOk.__slots__], show=repr))
+    return out
+
+
+@replayer
+def c16_trace_case(kind, arg, legacy):
+    """does ONE call (decoding `arg` / encoding `arg`) leave a trace in later, unrelated calls?"""
+    with real.legacy(legacy):
+        before = c16_probe()
+        if kind == 'unmarshal':
+            catching(frame.unmarshal, arg)
+        elif kind == 'encvalue':
+            catching(encode.encode_table_value, arg)
+        elif kind == 'marshal':
+            catching(frame.marshal, arg[0], arg[1])
+        after = c16_probe()
+        now = encode.DEPRECATED_RABBITMQ_SUPPORT
+    if before != after:
+        i = next(i for i, (a, b) in enumerate(zip(before, after)) if a != b)
+        return ('probe %d: %s' % (i, before[i][:200]), after[i][:200])
+    if now is not legacy and now != legacy:
+        return ('switch still %r' % legacy, repr(now))
+    return None
+
+
+def c16_traces(ctx, res):
+    g = ctx.gen
+    C = commands
+    n = 0
+    # every product x version a peer may announce, in both handshake directions
+    for prod in lanes.PRODUCTS:
+        for ver in lanes.VERSIONS:
+            if not ctx.thorough and g.r.random() < 0.5 and prod != 'RabbitMQ':
+                continue
+            peer = {'product': prod, 'version': ver, 'platform': 'Erlang/OTP 26', 'capabilities': {'publisher_confirms': True, 'basic.nack': True},
+                    'information': 'Licensed under the MPL 2.0.', 'cluster_name': 'rabbit@h'}
+            for f in (C.Connection.Start(0, 9, peer, 'PLAIN AMQPLAIN', 'en_US'), C.Connection.StartOk(peer, 'PLAIN', '\x00g\x00g', 'en_US')):
+                k, data = catching(frame.marshal, f, 0)
+                if k != 'ok':
+                    continue
+                for legacy in ((False, True) if n % 7 == 0 else (False,)):
+                    res.case('trace %s %s %s %d' % (f.name, prod, ver, legacy), tag='trace.handshake', sample={'product': prod, 'version': ver})
+                    bad = c16_trace_case('unmarshal', data, legacy)
+                    if bad:
+                        res.violation('decoding %s from %r %r leaves a trace in later calls' % (f.name, prod, ver),
+                                      {'fn': 'c16_trace_case', 'args': pyrepr(('unmarshal', data, legacy))}, bad[0], bad[1])
+                n += 1
+    # realistic and random frames, decoded and encoded
+    for _ in range(1500 if ctx.thorough else 250):
+        f, ch = lanes.realistic_frame(ctx) if g.r.random() < 0.6 else lanes.random_frame(ctx)
+        k, data = catching(frame.marshal, f, ch)
+        if k != 'ok':
+            continue
+        legacy = g.r.random() < 0.3
+        res.case('trace %s' % data.hex()[:400], tag='trace.frames')
+        bad = c16_trace_case('unmarshal', data, legacy)
+        if bad:
+            res.violation('decoding a %s frame leaves a trace in later calls' % lanes.kind_of(f),
+                          {'fn': 'c16_trace_case', 'args': pyrepr(('unmarshal', data, legacy))}, bad[0], bad[1])
+    for _ in range(600 if ctx.thorough else 120):
+        v = g.value_ok(2, 3) if g.r.random() < 0.7 else g.r.choice(lanes.RECURRING)()
+        legacy = g.r.random() < 0.3
+        res.case('trace enc %s' % pyrepr(v)[:400], tag='trace.values')
+        bad = c16_trace_case('encvalue', v, legacy)
+        if bad:
+            res.violation('encoding a value leaves a trace in later calls', {'fn': 'c16_trace_case', 'args': pyrepr(('encvalue', v, legacy))}, bad[0], bad[1])
+
+
 def oracle_c16(ctx):
     res = Result('c16.history')
     g = ctx.gen
+    c16_traces(ctx, res)
     # (1) per-call results in a long history == results of the same calls made first thing in a
     #     fresh interpreter state (computed here by re-running each call in isolation afterwards)
     ops = lanes.api_ops(ctx, 3000 if ctx.thorough else 400)
